@@ -306,3 +306,7 @@ M("C14", "C14.cleanup", _SI, "                for obj in self.objects:\n        
 M("C04", "C04.distance", _R, "        if dist > 0 and not (self.isConvex and other.isConvex) and self.intersects(other):\n            return 0\n\n        return dist", "        return dist", "c04-distance-surface-gap")
 M("C04", "C04.distance", _OT, "        if self._isPlanarBox and other._isPlanarBox and self.z == other.z:\n            return self._boundingPolygon.distance(other._boundingPolygon)", "        if self._isPlanarBox and other._isPlanarBox:\n            return self._boundingPolygon.distance(other._boundingPolygon)", "c04-distance-planar-any-height")
 RF("C04", _R, "        if dist > 0 and not (self.isConvex and other.isConvex) and self.intersects(other):\n            return 0\n\n        return dist", "        if dist <= 0 or (self.isConvex and other.isConvex):\n            return dist\n        return 0 if self.intersects(other) else dist", "c04-rf-distance-restructured")
+M("C10", "C10.partial", _G, "p=['[' a=NUMBER ']' { self.require_probability(a) }]", "p=['[' a=NUMBER ']' { float(a.string) }]", "c10-require-prob-float")
+M("C10", "C10.groups", _G, "    | 'require' \"monitor\" e=expression n=['as' a=scenic_require_stmt_name { a }] {", "    | 'require' \"monitor\" e=expression n=['as' scenic_require_stmt_name] {", "c10-require-monitor-name-list")
+M("C10", "C10.partial", _CO, "        if node.orelse and not node.except_handlers:\n", "        if False:\n", "c10-try-else-without-except")
+M("C10", "C10.children", _CO, "            value = ast.Constant(None) if node.value is None else self.visit(node.value)", "            value = ast.Constant(None) if node.value is None else node.value", "c10-return-value-unvisited")
